@@ -66,6 +66,12 @@ func c10Gen(r *RNG, id string) *Case {
 		c.Tag("ambiguous-reference")
 	}
 	n := r.Range(1, 20)
+	if m := manyRecords(r, c, 25); m > 0 {
+		n = m
+		if len(ref) > 24 {
+			ref = ref[:24]
+		}
+	}
 	var seqs []string
 	for i := 0; i < n; i++ {
 		seqs = append(seqs, tractSeq(r, strings.ToUpper(ref)))
